@@ -1479,6 +1479,15 @@ func (e *Enc) exitEdge(fr *Frame, from, to *ssa.BasicBlock, guard T, st *State) 
 		}
 		e.oblige("body-exit", fmt.Sprintf("loop%d:%s", li.ord, clabel(c)), guard, t, c.Src, from.Instrs[len(from.Instrs)-1].Pos())
 	}
+	if from != li.header {
+		for _, c := range spec.BreakEns {
+			t, ok := e.evalClauseOpt(fr, sc, c)
+			if !ok {
+				continue
+			}
+			e.oblige("body-break", fmt.Sprintf("loop%d:%s", li.ord, clabel(c)), guard, t, c.Src, from.Instrs[len(from.Instrs)-1].Pos())
+		}
+	}
 }
 
 func (e *Enc) markWrite(key string) {
